@@ -271,6 +271,13 @@ class TypedNode(Node):
             if isinstance(before, int):
                 # Inserting one by one at a fixed index reverses the order
                 topnodes = topnodes[::-1]  # (do not modify the source tree)
+            # Check all nodes first, so a refused call does not add some of them
+            for n in topnodes:
+                for c in self.children:
+                    if c._data_id == n._data_id:
+                        raise UniqueConstraintError(
+                            "Node.data already exists in parent"
+                        )
             for n in topnodes:
                 self.add_child(n, before=before, deep=deep)
             return
